@@ -4,13 +4,13 @@
    jumps over several intervals), function behaviours, Deferred firings, stop, reset up
    to the horizon. *)
 EXTENDS Looping, TLC
-CONSTANTS MaxIv, Horizon, MaxD, MaxOps, T0s
+CONSTANTS MaxIv, Horizon, MaxD, MaxOps, T0s, Stricts
 
-Init == \E iv \in 1..MaxIv, nf \in BOOLEAN, w \in BOOLEAN, s \in T0s :
-            InitWith([iv |-> iv, nowFlag |-> nf, wc |-> w, t0 |-> s])
+Init == \E iv \in 1..MaxIv, nf \in BOOLEAN, w \in BOOLEAN, s \in T0s, st \in Stricts :
+            InitWith([iv |-> iv, nowFlag |-> nf, wc |-> w, t0 |-> s, strict |-> st])
 
 NStartNow   == \E bh \in Behs : StartNow(bh)
-NAdvCall    == \E d \in 1..MaxD, bh \in Behs : AdvanceCall(d, bh)
+NAdvCall    == \E d \in 1..MaxD, bh \in Behs, xc \in 0..1 : AdvanceCall(d, bh, xc)
 NAdvQuiet   == \E d \in 1..MaxD : AdvanceQuiet(d)
 
 Next == \/ NStartNow \/ StartLater \/ NAdvCall \/ NAdvQuiet
